@@ -19,7 +19,7 @@ use std::sync::Arc;
 pub const DEF: PropDef = PropDef {
     id: "C02",
     level: "exploration",
-    rule: "cases = (dataset, query, configuration): queries are BGPs of 2-4 patterns (chain, subject star of >=3 patterns so the StarJoin rewrite fires, cycle, cartesian product, repeated variable, variable predicate), GRAPH-scoped BGPs (fixed and variable graph), UNIONs of VALUES blocks and of twin scans differing only in graph/constant (memo key), BGP+FILTER, BGP+sub-select; for each query EVERY permutation of every triples block (<=24); configurations: statistics in {fresh gather_stats_fast, empty DatabaseStats::new(), all-zero, all-huge, per-predicate cardinalities inverted, stale (real cached_stats path: query, mutate through add_triple/add_quad, query again)}; for the plan find_best_plan returns under each statistics object EVERY assignment of {BindJoin, HashJoin, NestedLoopJoin} to its join nodes (3^j), every TableScan<->IndexScan flip, StarJoin replaced by left-deep joins; thread-pool sizes {1,2,3,4,8,16} on a 210-triple dataset where execute_bind_join splits. Oracle: every variant returns the same solution multiset (decoded) and that multiset equals the SPARQL-algebra reference. Non-trivial = case with a non-empty answer and >=2 join nodes or a non-default configuration; distinct by (query, dataset, configuration).",
+    rule: "cases = (dataset, query, configuration): queries are BGPs of 2-4 patterns (chain, subject star of >=3 patterns so the StarJoin rewrite fires, cycle, cartesian product, repeated variable, variable predicate), GRAPH-scoped BGPs (fixed and variable graph), UNIONs of VALUES blocks and of twin scans differing only in graph/constant (memo key), BGP+FILTER, BGP+sub-select; for each query EVERY permutation of every triples block (<=24); configurations: statistics in {fresh gather_stats_fast, empty DatabaseStats::new(), all-zero, all-huge, per-predicate cardinalities inverted, stale (real cached_stats path: query, mutate through add_triple/add_quad, query again)}; for the plan find_best_plan returns under each statistics object EVERY assignment of {BindJoin, HashJoin, NestedLoopJoin} to its join nodes (3^j), every TableScan<->IndexScan flip, StarJoin replaced by left-deep joins; thread-pool sizes {1,2,3,4,8,16} on a 210-triple dataset and on a 1099-subject dataset (1099 left rows: not divisible by any pool size and > 64 rows per worker) so that execute_bind_join splits unevenly for every pool size. Oracle: every variant returns the same solution multiset (decoded) and that multiset equals the SPARQL-algebra reference. Non-trivial = case with a non-empty answer and >=2 join nodes or a non-default configuration; distinct by (query, dataset, configuration).",
     assumptions: &[
         "interleavings INSIDE a rayon pool are not enumerable (the pool cannot be intercepted); pool sizes are enumerated and the free-running runs are labelled as such. Structural argument: chunk results are concatenated positionally and the only state shared between chunk tasks is the dictionary behind its RwLock, whose id assignment cannot influence decoded rows",
         "plan variants are produced by rewriting the public PhysicalOperator tree; all three join algorithms are candidates of every logical join in find_best_plan_recursive, so every assignment is a plan the optimizer could select",
@@ -173,6 +173,19 @@ pub fn wide_dataset() -> Dataset {
     ds.default.insert((C.to_string(), P.to_string(), C.to_string()));
     ds.default.insert((A.to_string(), P.to_string(), B.to_string()));
     ds.named.entry(G2.to_string()).or_default().insert((A.to_string(), P.to_string(), B.to_string()));
+    ds
+}
+
+/// a dataset with 1099 subjects (1099 is not divisible by 2, 3, 4, 8 or 16 and exceeds 64 rows per
+/// worker for every enumerated pool size), so that execute_bind_join splits its left input into
+/// uneven chunks for every pool size > 1
+pub fn xwide_dataset() -> Dataset {
+    let mut ds = Dataset::default();
+    for k in 0..1099 {
+        let s = format!("http://e/m{}", k);
+        ds.default.insert((s.clone(), P.to_string(), format!("http://e/m{}", (k * 7 + 1) % 1099)));
+        ds.default.insert((s.clone(), Q.to_string(), format!("{}", k % 5)));
+    }
     ds
 }
 
@@ -677,6 +690,20 @@ fn run(ctx: &Ctx) -> ShardOut {
             pool_sizes_case(&mut out, name, pi, g, &wide, None);
         }
     }
+    // uneven chunking: 1099 left rows under every pool size
+    let xwide = xwide_dataset();
+    for (name, base) in groups.iter().filter(|(n, _)| matches!(*n, "chain2" | "os_join" | "join_filter" | "star3")) {
+        for (pi, g) in permuted_groups(base).iter().enumerate() {
+            if pi > 1 {
+                break;
+            }
+            idx += 1;
+            if !ctx.mine(idx) {
+                continue;
+            }
+            pool_sizes_case(&mut out, &format!("xwide:{}", name), pi, g, &xwide, None);
+        }
+    }
     out
 }
 
@@ -686,6 +713,8 @@ fn replay(_ctx: &Ctx, case: &Value) -> ShardOut {
     let perm = case["perm"].as_u64().unwrap_or(0) as usize;
     let config = case["config"].as_str().unwrap_or("");
     let groups = base_groups();
+    let xw = shape.starts_with("xwide:");
+    let shape = shape.trim_start_matches("xwide:");
     let Some((name, base)) = groups.iter().find(|(n, _)| *n == shape) else {
         out.machinery_errors.push("replay: unknown shape".into());
         return out;
@@ -696,7 +725,7 @@ fn replay(_ctx: &Ctx, case: &Value) -> ShardOut {
         return out;
     };
     if let Some(n) = config.strip_prefix("pool:") {
-        pool_sizes_case(&mut out, name, perm, g, &wide_dataset(), n.parse().ok());
+        pool_sizes_case(&mut out, name, perm, g, &if xw { xwide_dataset() } else { wide_dataset() }, n.parse().ok());
         return out;
     }
     let mask = case["dataset_mask"].as_u64().unwrap_or(0) as u32;
